@@ -151,7 +151,7 @@ def strip_run(r):
 
 def strip_obs(c):
     """the input part of a case (what --cases needs)"""
-    out = {"id": c["id"], "class": c.get("class", ""), "init": c.get("init") or [],
+    out = {"id": c["id"], "class": c.get("class", ""), "tick_ns": c.get("tick_ns", 0), "init": c.get("init") or [],
            "init_tables": c.get("init_tables") or [],
            "runs": [strip_run(r) for r in c["runs"]]}
     if c.get("conc") is not None:
